@@ -247,8 +247,8 @@ def helper_import(): __import__('c15_body_pkg_b')
 with beartyping():
     # code the CALLER owns: other threads must be able to use the hook API / import hooked modules while it runs (and it may wait for them)
     for label, fn in (('beartype_package() in another thread', helper_register), ('an import in another thread', helper_import)):
-        t = threading.Thread(target=fn, daemon=True); t.start(); t.join(8)
-        if t.is_alive(): bad.append(f'{label} is still blocked after 8 s while the main thread is inside a `with beartyping():` body')
+        t = threading.Thread(target=fn, daemon=True); t.start(); t.join(25)
+        if t.is_alive(): bad.append(f'{label} is still blocked after 25 s while the main thread is inside a `with beartyping():` body')
 print(bad); sys.exit(1 if bad else 0)
 """
 def body_not_under_lock(rep):
